@@ -21,7 +21,8 @@ SWEEP_EXHAUSTIVE_NOTE = ("bounded sweep over B base documents (B = 4 quick, 40 t
 FEATURES = ["colruns", "rowruns", "s-single", "s-noc", "paragraphs", "spans", "emptyp", "stored", "utf16", "latin1",
             "colstyle", "trailing-empty-run", "annotations", "embedded-object", "links", "header-rows", "row-groups",
             "covered-cells", "no-value-type"]
-FAULT_KINDS = ["truncate", "xml-cut", "member-missing", "not-a-zip", "corrupt-member", "bad-repeat", "missing-sheet"]
+FAULT_KINDS = ["truncate", "xml-cut", "member-missing", "not-a-zip", "corrupt-member", "bad-repeat", "missing-sheet",
+               "deep-nesting"]
 RULE_TEXT = (
     "seeded scenarios: 1-3 sheets of 0-6 rows x 0-8 cells over an alphabet with runs of equal cells, equal adjacent rows, "
     "multiple / leading / trailing blanks, tabs, line breaks, XML-special and non-ASCII characters, encoded by the ODF "
@@ -162,6 +163,27 @@ def build(scenario):
         for offset in range(position, min(position + 3, start + info.compress_size)):
             damaged[offset] ^= 0xFF
         return bytes(damaged), used, logical, True
+    if kind == "deep-nesting":
+        # well-formed, but nested deeper than a recursive reader can follow: the first paragraph of the sheet gets
+        # 3000 nested spans, or its rows are wrapped into 3000 nested row groups.  Either the rows come back right
+        # or the document is refused with a data-format error - nothing else.
+        marker = '<table:table table:name="Sheet%d">' % scenario["sheet"]
+        start = text.find(marker)
+        end_of_sheet = text.find("</table:table>", start)
+        depth = 3000
+        if fault["at"] < 0.5:
+            position = text.find("<text:p>", start)
+            close = text.find("</text:p>", position)
+            if start < 0 or position < 0 or close > end_of_sheet:
+                return data, used, logical, False
+            text = text[:position + 8] + "<text:span>" * depth + text[position + 8:close] + "</text:span>" * depth + text[close:]
+        else:
+            position = text.find("<table:table-row", start)
+            if start < 0 or position < 0 or position > end_of_sheet:
+                return data, used, logical, False
+            text = text[:position] + "<table:table-row-group>" * depth + text[position:end_of_sheet] + \
+                "</table:table-row-group>" * depth + text[end_of_sheet:]
+        return odf.archive(text.encode("utf-8"), features), used, logical, True
     if kind == "bad-repeat" and fault["on"] == "spaces":
         # put a bad count on the first run of blanks of the requested sheet
         marker = '<table:table table:name="Sheet%d">' % scenario["sheet"]
@@ -329,8 +351,8 @@ def execute(scenario):
     kind = fault["kind"]
     if status == "exc":
         return result
-    if kind in ("truncate", "corrupt-member") and value == wanted:
-        return result  # damage that left the content intact
+    if kind in ("truncate", "corrupt-member", "deep-nesting") and value == wanted:
+        return result  # damage that left the content intact / nesting the reader could follow
     more = ["fault=" + kind]
     if kind == "bad-repeat":
         more += ["on=" + fault["on"], "value=" + fault["value"]]
